@@ -10,7 +10,7 @@ import glob
 claimed = {}
 for f in sorted(glob.glob("/verif/checks/C*.json")):
     s = json.load(open(f))
-    if "manifest" in s:
+    if "manifest" in s and s["manifest"].get("level_text", "TBD") != "TBD":
         mf = s["manifest"]
         claimed[s["property"]] = dict(ref=mf["design_ref"], text=mf["level_text"], note=mf["level_note"])
 
